@@ -433,6 +433,18 @@ func concretise(c *expCase) (*concrete, error) {
 		}
 		if a.Owner == 0 {
 			name := nodeName(i, c.Names, c.Rot)
+			if c.Names == "perdoc" {
+				// the k-th element of its section in its document is called E<k> in every document: the same
+				// reference text ("#/definitions/E1") means another element in each of them
+				k := 1
+				for m := 1; m < i; m++ {
+					b := c.Nodes[m-1]
+					if b.Owner == 0 && b.Doc == a.Doc && sectionOf(b.Kind) == sectionOf(a.Kind) {
+						k++
+					}
+				}
+				name = "E" + strconv.Itoa(k)
+			}
 			if a.Kind == "i" {
 				name = "/" + name // path keys start with a slash
 			}
@@ -535,6 +547,13 @@ func concretise(c *expCase) (*concrete, error) {
 			switch a.Kind {
 			case "s":
 				m["title"] = lab
+				// a type, in rotation (a scalar type next to sub-schemas is unusual but legal)
+				switch (c.Rot + i) % 4 {
+				case 1:
+					m["type"] = "string"
+				case 2:
+					m["type"] = "object"
+				}
 				if a.ID != "" {
 					m["id"] = idFor(a.ID, i)
 				}
@@ -796,6 +815,7 @@ var expFlags struct {
 	wholeDocs  bool
 	site       string
 	idsNamed   bool
+	handBuilt  bool
 }
 
 func init() {
@@ -815,6 +835,7 @@ func init() {
 			fs.BoolVar(&expFlags.oddTargets, "oddtargets", false, "dangling refs point at JSON null / an empty object instead (C04 only)")
 			fs.StringVar(&expFlags.site, "site", "", "site of the root document: empty (local file) or http")
 			fs.BoolVar(&expFlags.wholeDocs, "wholedocs", false, "a document whose only top-level element is a structured schema IS that schema (whole-document $refs)")
+			fs.BoolVar(&expFlags.handBuilt, "handbuilt", false, "the decoded root is turned into a hand-assembled model (schema unions without the Allows flag)")
 			fs.BoolVar(&expFlags.idsNamed, "idsnamed", false, "with -ids: references into the own document name it instead of being fragment-only")
 			fs.StringVar(&expFlags.ids, "ids", "", "comma list of id classes given (in rotation) to the structured schemas: abs,relfile,reldir,frag")
 		},
@@ -939,6 +960,9 @@ func caseFlags() string {
 	}
 	if expFlags.idsNamed {
 		fl = append(fl, "idsnamed")
+	}
+	if expFlags.handBuilt {
+		fl = append(fl, "handbuilt")
 	}
 	return strings.Join(fl, ",")
 }
